@@ -5,3 +5,5 @@
 
 #[cfg(kani)]
 mod floats;
+#[cfg(kani)]
+mod tables;
